@@ -3,7 +3,7 @@ import json
 from vlib import standard_pipeline, standard_replay, finish
 
 RULE = ("every complete behaviour of the HttpParse grammar machine, one dimension exhaustively per family (header lines: names in four letter "
-        "cases, repeated names, long and spaced values; targets x queries x methods; bodies: four sizes around the 1 KiB buffer x first byte "
+        "cases, repeated names, long and spaced values; every one of the 39 non-framing standard header names in four cases through its typed accessor and get(); targets x queries x methods; bodies: four sizes around the 1 KiB buffer x first byte "
         "NUL or not x NUL inside x Content-Length spelling; 30 fault actions on three base requests), `-simulate` over the full product and "
         "seeded random requests with up to 6 header lines; non-trivial = a fault, or a body, or a header name in unusual case, or a repeated name")
 TRACE = ("Trace_HttpParse", "Trace_HttpParse.cfg")
@@ -17,6 +17,7 @@ def nontrivial(o):
 def run(ctx):
     q = ctx.quick
     gen = [("HttpParseGen", "Gen_HttpParse_headers.cfg", dict(workers=4)),
+           ("HttpParseGen", "Gen_HttpParse_names.cfg", dict(workers=4)),
            ("HttpParseGen", "Gen_HttpParse_target_q.cfg" if q else "Gen_HttpParse_target.cfg", dict(workers=6, timeout=1200)),
            ("HttpParseGen", "Gen_HttpParse_body.cfg", dict(workers=2)),
            ("HttpParseGen", "Gen_HttpParse_faults.cfg", dict(workers=4)),
